@@ -36,6 +36,11 @@ func hostileCounts(f field, big bool) []uint64 {
 		if f.Kind == fCount32 {
 			v &= 0xffffffff
 		}
+		// within-limit counts above 2^16 make a correct decoder allocate up to
+		// 1.2 GB before it notices the data is missing; only "big" cases pay for that
+		if v <= l && v > 1<<16 && !(big && v >= l-1) {
+			continue
+		}
 		if !seen[v] {
 			seen[v] = true
 			out = append(out, v)
@@ -107,7 +112,11 @@ func enumerateFaults(kind string, seed []byte, big bool, yield func(label string
 		payloadOK := perName[f.Name] <= 3 || lastOf[f.Name] == i
 		switch f.Kind {
 		case fCount32, fCount64, fCountVar:
-			for _, v := range hostileCounts(f, big) {
+			// the at-limit constants cost a correct decoder seconds and 1.2 GB each:
+			// only on the first count field of a "big" case
+			atLimit := big
+			big = false
+			for _, v := range hostileCounts(f, atLimit) {
 				if !emit(f, fmt.Sprintf("count %d", v), encodeCount(f, v)) {
 					return
 				}
@@ -210,20 +219,32 @@ type enumCase struct {
 	Big  bool   // include the at-limit constants (limit−1, limit)
 }
 
+// oneIn draws true about once in n. rapid's integer generators favour the ends
+// of a range and small values (IntRange(0,99) yields 0 ten times in a hundred),
+// so the test is against a value in the flat part of the distribution, where a
+// range of N values gives each about 1/(1.75 N).
+func oneIn(t *rapid.T, label string, n int) bool {
+	N := n * 4 / 7
+	if N < 6 {
+		N = 6
+	}
+	return rapid.IntRange(0, N-1).Draw(t, label) == N-3
+}
+
 func genKind(t *rapid.T) string {
-	// list-bearing kinds get most of the weight
-	return rapid.SampledFrom([]string{"point", "cap", "rect", "cellid", "cell",
-		"cellunion", "cellunion", "polyline", "polyline", "loop", "loop", "loop",
-		"polygon", "polygon", "polygon", "polygon", "polygon", "polygon"}).Draw(t, "kind")
+	// list-bearing kinds get most of the weight (rapid favours the front of the list)
+	return rapid.SampledFrom([]string{"polygon", "polygon", "polygon", "loop", "polygon", "polygon", "loop", "polygon",
+		"polyline", "cellunion", "loop", "polyline", "cellunion",
+		"cell", "point", "cap", "rect", "cellid"}).Draw(t, "kind")
 }
 
 func genEnumCase(t *rapid.T) enumCase {
 	k := genKind(t)
-	bigOdds := 60
+	bigOdds := 100
 	if ev.Thorough() {
-		bigOdds = 25
+		bigOdds = 50
 	}
-	big := rapid.IntRange(0, bigOdds-1).Draw(t, "big") == 0
+	big := oneIn(t, "big", bigOdds)
 	return enumCase{Kind: k, Seed: hex.EncodeToString(genSeed(t, k)), Big: big}
 }
 
@@ -332,6 +353,11 @@ func mutateField(t *rapid.T, label, kind string, data []byte) []byte {
 	for i, f := range w.Fields {
 		switch f.Kind {
 		case fFloat, fCellID:
+		case fVersion:
+			// a wrong version byte ends the decode at once; keep it occasional
+			if rapid.IntRange(0, 7).Draw(t, label+".ver") == 0 {
+				steer = append(steer, i)
+			}
 		default:
 			steer = append(steer, i)
 		}
@@ -385,7 +411,7 @@ func mutateField(t *rapid.T, label, kind string, data []byte) []byte {
 func genMutated(t *rapid.T) bytesCase {
 	kind := genKind(t)
 	src := kind
-	if rapid.IntRange(0, 11).Draw(t, "cross") == 0 {
+	if oneIn(t, "cross", 12) {
 		src = genKind(t) // another type's encoding handed to this decoder
 	}
 	data := append([]byte{}, genSeed(t, src)...)
@@ -396,10 +422,12 @@ func genMutated(t *rapid.T) bytesCase {
 		pos := 0
 		if len(data) > 0 {
 			// positions near the front (headers, counts) are the interesting ones
+			// (rapid favours the ends of a range; the +2 moves its favourite from
+			// the version byte onto the first count field)
 			if rapid.Bool().Draw(t, l+".front") {
-				pos = rapid.IntRange(0, minInt(len(data)-1, 24)).Draw(t, l+".pos")
+				pos = (rapid.IntRange(0, minInt(len(data)-1, 24)).Draw(t, l+".pos") + 2) % len(data)
 			} else {
-				pos = rapid.IntRange(0, len(data)-1).Draw(t, l+".pos")
+				pos = (rapid.IntRange(0, len(data)-1).Draw(t, l+".pos") + 2) % len(data)
 			}
 		}
 		switch {
@@ -433,18 +461,52 @@ func minInt(a, b int) int {
 	return b
 }
 
+// genRawCount draws the bytes of a count field: mostly small, often hostile,
+// sometimes arbitrary (arbitrary within-limit counts cost a correct decoder up
+// to 1.2 GB each, so they are kept to a few percent).
+func genRawCount(t *rapid.T, label string, kind fk, limit uint64) []byte {
+	f := field{Kind: kind, Limit: limit, Val: 3}
+	switch m := rapid.IntRange(0, 19).Draw(t, label+".m"); {
+	case m < 11:
+		return encodeCount(f, uint64(rapid.IntRange(0, 9).Draw(t, label+".small")))
+	case m < 18:
+		hs := hostileCounts(f, false)
+		return encodeCount(f, hs[rapid.IntRange(0, len(hs)-1).Draw(t, label+".h")])
+	case m == 18:
+		return encodeCount(f, uint64(rapid.IntRange(0, 1<<16).Draw(t, label+".mid")))
+	default:
+		// arbitrary over-limit value (rapid favours the low end: just above the limit)
+		return encodeCount(f, rapid.Uint64Range(limit+1, ^uint64(0)).Draw(t, label+".any"))
+	}
+}
+
 func genRaw(t *rapid.T) bytesCase {
 	kind := genKind(t)
 	var head []byte
 	if rapid.IntRange(0, 9).Draw(t, "validhead") != 0 {
 		switch kind {
-		case "point", "rect", "cellunion", "polyline", "loop":
+		case "point", "rect":
 			head = []byte{1}
+		case "cellunion":
+			head = append([]byte{1}, genRawCount(t, "n", fCount64, limCells)...)
+		case "polyline":
+			head = append([]byte{1}, genRawCount(t, "n", fCount32, limVertices)...)
+		case "loop":
+			head = append([]byte{1}, genRawCount(t, "n", fCount32, limVertices)...)
 		case "polygon":
 			if rapid.Bool().Draw(t, "v4") {
 				head = []byte{4, byte(rapid.IntRange(0, 31).Draw(t, "snap"))}
+				head = append(head, genRawCount(t, "nl", fCountVar, limLoops)...)
+				if rapid.Bool().Draw(t, "v4nv") {
+					head = append(head, genRawCount(t, "nv", fCountVar, limVertices)...)
+				}
 			} else {
-				head = []byte{1}
+				head = []byte{1, genByte(t, "owns"), genByte(t, "holes")}
+				head = append(head, genRawCount(t, "nl", fCount32, limLoops)...)
+				if rapid.Bool().Draw(t, "v1nv") {
+					head = append(head, 1)
+					head = append(head, genRawCount(t, "nv", fCount32, limVertices)...)
+				}
 			}
 		}
 	}
@@ -502,7 +564,7 @@ func checkBytesCase(c bytesCase) ev.Outcome {
 
 func init() {
 	ev.Define("fault_enum", ev.Options{
-		Rule: "one Case = one valid encoding (library encoder on a generated Point/Cap/Rect/CellID/Cell/CellUnion/Polyline/Loop/Polygon, lossless and compressed); the Check enumerates deterministically, via an independent field model of the formats, every count field × {0,1,n±1,n+2,255,2^16,2^20,limit+1,limit+2,2·limit,2^25,2^31−1,2^31,2^32−1,2^32,2^32+1,2^40,2^45,2^48,2^60,2^63−1,2^63,2^63+1,2^64−2,2^64−1; limit−1 and limit on 1 case in 60 (quick) / 25 (thorough)} (+ overlong / maximal / overflowing / 11-byte raw varints), every version byte × {0..5,127,128,255}, snap level × {0,1,8,9,29,30,31,64,255}, the first 3 and the last float / cell id / varint / byte field of each name × hostile values (NaN, ±Inf, denormal, 1e308; invalid ids; 2^63, 2^64−1 …), truncation before and inside every field, trailing garbage. Oracles: no panic / hang / abort; over-limit count ⇒ error with < 64 MiB allocated; truncated / bad version / bad varint ⇒ error; a nil error ⇒ the value survives validator, edges, chains, bounds, containment, re-encoding and re-decoding. Non-trivial = at least one enumerated input got past the version byte and reached a count field (fixed-layout types: is not a plain valid encoding). Counts 'class …' give the per-input histogram.",
+		Rule: "one Case = one valid encoding (library encoder on a generated Point/Cap/Rect/CellID/Cell/CellUnion/Polyline/Loop/Polygon, lossless and compressed); the Check enumerates deterministically, via an independent field model of the formats, every count field × {0,1,n±1,n+2,255,2^16,2^20,limit+1,limit+2,2·limit,2^25,2^31−1,2^31,2^32−1,2^32,2^32+1,2^40,2^45,2^48,2^60,2^63−1,2^63,2^63+1,2^64−2,2^64−1; limit−1 and limit on the first count field of 1 case in 100 (quick) / 50 (thorough); other within-limit constants are capped at 2^16} (+ overlong / maximal / overflowing / 11-byte raw varints), every version byte × {0..5,127,128,255}, snap level × {0,1,8,9,29,30,31,64,255}, the first 3 and the last float / cell id / varint / byte field of each name × hostile values (NaN, ±Inf, denormal, 1e308; invalid ids; 2^63, 2^64−1 …), truncation before and inside every field, trailing garbage. Oracles: no panic / hang / abort; over-limit count ⇒ error with < 64 MiB allocated; truncated / bad version / bad varint ⇒ error; a nil error ⇒ the value survives validator, edges, chains, bounds, containment, re-encoding and re-decoding. Non-trivial = at least one enumerated input got past the version byte and reached a count field (fixed-layout types: is not a plain valid encoding). Counts 'class …' give the per-input histogram.",
 		Quick: 1200, Thorough: 40000, Journal: true}, genEnumCase, checkFaultEnum)
 	ev.Define("prefix_enum", ev.Options{
 		Rule: "one Case = one valid encoding; EVERY strict prefix is decoded (alternating reader kinds); the formats are self-delimiting so each must return an error, without panic. Non-trivial = non-empty encoding.",
@@ -511,6 +573,6 @@ func init() {
 		Rule: "valid encoding (1 in 12: of another type) put through 1–4 drawn mutations: model-guided field replacement by hostile/random values (counts, versions, varints, floats, ids), bit flip, byte set, truncate, append, delete, duplicate, insert; decoded through bytes.Reader or a one-byte plain io.Reader; same oracles plus reader-independence (error-ness and re-encoding). Non-trivial = past the version byte and ≥ 1 count field reached (fixed-layout types: not a plain valid encoding).",
 		Quick: 60000, Thorough: 2500000, Journal: true}, genMutated, checkBytesCase)
 	ev.Define("raw", ev.Options{
-		Rule: "0–96 drawn bytes (half from a hostile byte set) behind a valid version header 9 times in 10; all ten decoders. Same oracles and non-trivial rule as 'mutated'.",
+		Rule: "0–96 drawn bytes (half from a hostile byte set); 9 times in 10 behind a valid version header followed by drawn count fields (55% 0..9, 35% hostile constants, 5% up to 2^20, 5% arbitrary 64-bit); all ten decoders. Same oracles and non-trivial rule as 'mutated'.",
 		Quick: 40000, Thorough: 1500000, Journal: true}, genRaw, checkBytesCase)
 }
